@@ -157,6 +157,27 @@ Proof.
     + apply existsb_ext'. intro a. rewrite is_repeated_src_refines. reflexivity.
 Qed.
 
+(* `self.details.nearby_registers += 1` (u32) cannot overflow whatever the compiled tests are: at most one increment per register *)
+Lemma fold_count_bound : forall (fn : Z -> bool) (fp : bool -> Z -> bool) regs n p,
+  let st := fold_left (fun (st : Z * bool) addr => (if fn addr then fst st + 1 else fst st, fp (snd st) addr)) regs (n, p) in
+  n <= fst st <= n + Z.of_nat (length regs).
+Proof.
+  induction regs as [|r regs IH]; intros n p; cbn [fold_left length]; [cbn [fst]; lia|].
+  cbn [fst snd]. specialize (IH (if fn r then n + 1 else n) (fp p r)). cbv zeta in IH.
+  destruct (fn r); rewrite Nat2Z.inj_succ; lia.
+Qed.
+
+Theorem heuristics_src_nearby_bound : forall new orig nc ctx,
+  0 <= d_nearby (heuristics_src new orig nc ctx) <= match ctx with Some (_, regs) => Z.of_nat (length regs) | None => 0 end.
+Proof.
+  intros new orig nc [[rs regs]|]; unfold heuristics_src; cbn [d_nearby]; [|lia].
+  set (is_null := g_h_is_null new orig nc). set (was_low := g_h_was_low new orig nc is_null).
+  set (calc := g_h_calc new orig nc is_null was_low).
+  exact (fold_count_bound (g_h_nearby new orig nc is_null was_low calc)
+           (fun p addr => if g_h_poison_try (is_repeated_src rs) new orig nc is_null was_low calc p addr
+                          then (if is_poison_byte_src (Z.land addr 255) then true else p) else p) regs 0 false).
+Qed.
+
 Lemma mk_flip_src_refines : forall reg br ctx a pa, mk_flip_src reg br ctx a pa = mk_flip a pa reg (br_of br) ctx.
 Proof.
   intros. unfold mk_flip_src, mk_flip. rewrite heuristics_src_refines.
@@ -347,6 +368,20 @@ Proof.
   apply map_ext. intro m. symmetry. apply operand_address_src_refines.
 Qed.
 
+(* ---- permission masks *)
+Lemma region_of_info_src_refines : forall base size prot, region_of_info_src base size prot = region_of_info base size prot.
+Proof.
+  intros. unfold region_of_info_src, region_of_info, prot_src, prot_r, prot_w, prot_x.
+  rewrite <- !Z.land_assoc.
+  change (Z.land G_PROT_KNOWN G_PROT_R_MASK) with 102. change (Z.land G_PROT_KNOWN G_PROT_W_MASK) with 204.
+  change (Z.land G_PROT_KNOWN G_PROT_X_MASK) with 240. reflexivity.
+Qed.
+
+Lemma regions_of_info_src_refines : forall l, regions_of_info_src l = regions_of_info l.
+Proof.
+  intro l. unfold regions_of_info_src, regions_of_info. apply map_ext. intros [[a b] p]. apply region_of_info_src_refines.
+Qed.
+
 (* ---- the whole path from the raw records *)
 Section Dump.
   Variable analysis : pcontext -> option op_analysis.
@@ -403,7 +438,7 @@ Theorem the_property_src : forall analysis arch platform_id e pc l,
   let os := os_class (dump_os platform_id) in
   let r := dump_reason arch platform_id e in
   let address := dump_address arch platform_id e in
-  let flips := dump_pipeline_src analysis arch platform_id e pc (regions_of_info l) in
+  let flips := dump_pipeline_src analysis arch platform_id e pc (regions_of_info_src l) in
   (forall f, In f flips ->
      exists a j, examined_by analysis c os r address pc f a /\
                  inaccessible (regions_of_info l) (memop_of_reason r) a /\
@@ -417,7 +452,7 @@ Theorem the_property_src : forall analysis arch platform_id e pc l,
   (~ (arch = 9 \/ arch = 32770 \/ arch = 32772) -> flips = []).
 Proof.
   intros analysis arch platform_id e pc l H1 H2 H3 H4 H5. cbv zeta.
-  rewrite dump_pipeline_src_refines. exact (the_property analysis arch platform_id e pc l H1 H2 H3 H4 H5).
+  rewrite regions_of_info_src_refines, dump_pipeline_src_refines. exact (the_property analysis arch platform_id e pc l H1 H2 H3 H4 H5).
 Qed.
 
 Theorem try_src_complete : forall a reg br ctx rs op j,
